@@ -741,3 +741,413 @@ fn c18_conversion_parse() {
     kani::cover!(n == 2 && c1 == '!' && expect.is_none());
     kani::cover!(n == 1 && c1 == '!');
 }
+
+// ---------------------------------------------------------------------------------------------
+// C20: field-name splitting (FieldName::parse): the index reader on its own for every short ASCII text, and
+// the splitter per class layout (generated family at the end of this file).
+
+/// Python's get_integer restricted to ASCII: a non-empty run of ASCII digits that fits.
+fn parse_index_model(t: &str) -> Option<usize> {
+    let b = t.as_bytes();
+    if b.is_empty() {
+        return None;
+    }
+    let mut v: usize = 0;
+    let mut i = 0;
+    while i < b.len() {
+        if !b[i].is_ascii_digit() {
+            return None;
+        }
+        v = v.checked_mul(10)?.checked_add((b[i] - b'0') as usize)?;
+        i += 1;
+    }
+    Some(v)
+}
+
+macro_rules! parse_index_family {
+    ($name:ident, $n:expr) => {
+        #[kani::proof]
+        #[kani::unwind(6)]
+        fn $name() {
+            let buf: [u8; $n] = kani::any();
+            let mut i = 0;
+            while i < $n {
+                kani::assume(buf[i] < 128);
+                i += 1;
+            }
+            let text = unsafe { std::str::from_utf8_unchecked(&buf) };
+            let real = parse_index(text);
+            let model = parse_index_model(text);
+            assert!(real == model);
+            // the model's own meaning, spelled out for the cases that matter (F7: a sign is not a digit)
+            if buf[0] == b'+' || buf[0] == b'-' {
+                assert!(real.is_none());
+            }
+            kani::cover!(real.is_some());
+            kani::cover!(real.is_none());
+        }
+    };
+}
+
+// @ob id=C20.k.parse_index_1 props=C20 kind=complete tier=quick
+// @clause an index text of one ASCII character is a number exactly when it is a digit, with that value (all 128 texts)
+// @fns parse_index
+parse_index_family!(c20_parse_index_1, 1);
+
+// @ob id=C20.k.parse_index_2 props=C20 kind=bounded tier=quick
+// @bound all ASCII texts of 2 characters
+// @clause an index text is a number exactly when it is a non-empty run of ASCII digits (no sign: '+1' is a key), with its decimal value
+// @fns parse_index
+parse_index_family!(c20_parse_index_2, 2);
+
+// @ob id=C20.k.parse_index_3 props=C20 kind=bounded tier=quick
+// @bound all ASCII texts of 3 characters
+// @clause an index text is a number exactly when it is a non-empty run of ASCII digits (no sign), with its decimal value
+// @fns parse_index
+parse_index_family!(c20_parse_index_3, 3);
+
+/// One byte of a field name by class: 0 '.', 1 '[', 2 ']', 3 any ASCII digit, 4 any other ASCII character.
+/// The five classes partition ASCII, so the family over all class layouts of a length is every ASCII text of
+/// that length.
+fn field_name_byte(class: u8) -> u8 {
+    match class {
+        0 => b'.',
+        1 => b'[',
+        2 => b']',
+        3 => {
+            let d: u8 = kani::any();
+            kani::assume(d < 10);
+            b'0' + d
+        }
+        _ => {
+            let x: u8 = kani::any();
+            kani::assume(x < 128 && x != b'.' && x != b'[' && x != b']' && !x.is_ascii_digit());
+            x
+        }
+    }
+}
+
+// ---------------------------------------------------------------------------------------------
+// Decimal digits as Python reads them in format strings: Py_UNICODE_TODECIMAL, i.e. every character of
+// category Nd, not only ASCII (format(5, '\u{661}\u{660}') pads to width 10; '{\u{661}}' is positional index 1).
+
+/// First character (digit zero) of each of the 66 decimal-digit blocks of Unicode 14 (generated from CPython
+/// 3.11's unicodedata: every character with a decimal value sits at zero + value in one of these blocks).
+const PY_DECIMAL_ZEROS: [u32; 66] = [
+    0x30, 0x660, 0x6f0, 0x7c0, 0x966, 0x9e6, 0xa66, 0xae6, 0xb66, 0xbe6, 0xc66,
+    0xce6, 0xd66, 0xde6, 0xe50, 0xed0, 0xf20, 0x1040, 0x1090, 0x17e0, 0x1810, 0x1946,
+    0x19d0, 0x1a80, 0x1a90, 0x1b50, 0x1bb0, 0x1c40, 0x1c50, 0xa620, 0xa8d0, 0xa900, 0xa9d0,
+    0xa9f0, 0xaa50, 0xabf0, 0xff10, 0x104a0, 0x10d30, 0x11066, 0x110f0, 0x11136, 0x111d0, 0x112f0,
+    0x11450, 0x114d0, 0x11650, 0x116c0, 0x11730, 0x118e0, 0x11950, 0x11c50, 0x11d50, 0x11da0, 0x16a60,
+    0x16ac0, 0x16b50, 0x1d7ce, 0x1d7d8, 0x1d7e2, 0x1d7ec, 0x1d7f6, 0x1e140, 0x1e2f0, 0x1e950, 0x1fbf0,
+];
+
+fn py_decimal(c: char) -> Option<u32> {
+    let cp = c as u32;
+    let mut i = 0;
+    while i < 66 {
+        let z = PY_DECIMAL_ZEROS[i];
+        if cp >= z && cp < z + 10 {
+            return Some(cp - z);
+        }
+        i += 1;
+    }
+    None
+}
+
+// @ob id=C18.k.width_digit_class props=C18 kind=complete tier=quick
+// @clause the characters that start a width / precision are exactly the characters Python reads as decimal digits there (every char: ASCII digits, and the non-ASCII decimal digits Python's parser also accepts)
+// @fns get_num_digits
+#[kani::proof]
+#[kani::unwind(68)]
+fn c18_width_digit_class() {
+    let c: char = kani::any();
+    let mut buf = [0u8; 4];
+    let text: &str = c.encode_utf8(&mut buf);
+    let n = get_num_digits(text);
+    assert!(n == 0 || n == c.len_utf8());
+    let python = py_decimal(c);
+    if c.is_ascii() {
+        assert!((n > 0) == c.is_ascii_digit(), "ASCII: a width starts exactly at an ASCII digit");
+        assert!(python.is_some() == c.is_ascii_digit());
+    } else {
+        assert!((n > 0) == python.is_some(), "F9 non-ASCII decimal digit is not read as a width digit");
+    }
+    kani::cover!(n > 0);
+    kani::cover!(!c.is_ascii() && python.is_some());
+}
+
+// @ob id=C20.k.index_digit_class props=C20 kind=complete tier=quick
+// @clause a one-character index text is a number exactly when Python reads the character as a decimal digit, with that value (every char; a sign is not a digit)
+// @fns parse_index
+#[kani::proof]
+#[kani::unwind(68)]
+fn c20_index_digit_class() {
+    let c: char = kani::any();
+    let mut buf = [0u8; 4];
+    let text: &str = c.encode_utf8(&mut buf);
+    let r = parse_index(text);
+    let python = py_decimal(c);
+    if c.is_ascii() {
+        assert!(r == python.map(|d| d as usize), "ASCII: an index is exactly an ASCII digit");
+        assert!(python.is_some() == c.is_ascii_digit());
+    } else {
+        assert!(r == python.map(|d| d as usize), "F8 non-ASCII decimal digit is not read as an index");
+    }
+    kani::cover!(r.is_some());
+    kani::cover!(!c.is_ascii() && python.is_some());
+}
+
+// ---- generated layout family (lib/gen_field_name.py) ----
+// GENERATED by lib/gen_field_name.py (oracle validated against CPython on 9331 texts) - do not edit by hand
+
+// @ob id=C20.k.field_name_dot props=C20 kind=bounded tier=quick timeout=600
+// @bound every ASCII field name of the layout '.' (DIGIT any ASCII digit, OTHER any ASCII character other than . [ ] and digits); the 5 one-character layouts together are all 128 one-character ASCII names
+// @clause splitting a field name yields Python's head (an empty head before accessors is automatic numbering, ASCII digits are an index, anything else a keyword), Python's chain of attribute / index accessors and Python's rejections - for this layout: rejected: EmptyAttribute
+// @fns FieldName::parse FieldNamePart::parse_part parse_index
+#[kani::proof]
+#[kani::unwind(3)]
+#[kani::stub(core::str::slice_error_fail, slice_error_fail_plain)]
+fn c20_field_name_dot() {
+    let buf: [u8; 1] = [field_name_byte(0)];
+    let text = unsafe { std::str::from_utf8_unchecked(&buf) };
+    let r = ManuallyDrop::new(FieldName::parse(text));
+    assert!(matches!(&*r, Err(FormatParseError::EmptyAttribute)));
+}
+
+// @ob id=C20.k.field_name_lb props=C20 kind=bounded tier=quick timeout=600
+// @bound every ASCII field name of the layout '[' (DIGIT any ASCII digit, OTHER any ASCII character other than . [ ] and digits); the 5 one-character layouts together are all 128 one-character ASCII names
+// @clause splitting a field name yields Python's head (an empty head before accessors is automatic numbering, ASCII digits are an index, anything else a keyword), Python's chain of attribute / index accessors and Python's rejections - for this layout: rejected: MissingRightBracket
+// @fns FieldName::parse FieldNamePart::parse_part parse_index
+#[kani::proof]
+#[kani::unwind(3)]
+#[kani::stub(core::str::slice_error_fail, slice_error_fail_plain)]
+fn c20_field_name_lb() {
+    let buf: [u8; 1] = [field_name_byte(1)];
+    let text = unsafe { std::str::from_utf8_unchecked(&buf) };
+    let r = ManuallyDrop::new(FieldName::parse(text));
+    assert!(matches!(&*r, Err(FormatParseError::MissingRightBracket)));
+}
+
+// @ob id=C20.k.field_name_rb props=C20 kind=bounded tier=quick timeout=600
+// @bound every ASCII field name of the layout ']' (DIGIT any ASCII digit, OTHER any ASCII character other than . [ ] and digits); the 5 one-character layouts together are all 128 one-character ASCII names
+// @clause splitting a field name yields Python's head (an empty head before accessors is automatic numbering, ASCII digits are an index, anything else a keyword), Python's chain of attribute / index accessors and Python's rejections - for this layout: head kw[0..1]; accessors none
+// @fns FieldName::parse FieldNamePart::parse_part parse_index
+#[kani::proof]
+#[kani::unwind(3)]
+#[kani::stub(core::str::slice_error_fail, slice_error_fail_plain)]
+fn c20_field_name_rb() {
+    let buf: [u8; 1] = [field_name_byte(2)];
+    let text = unsafe { std::str::from_utf8_unchecked(&buf) };
+    let r = ManuallyDrop::new(FieldName::parse(text));
+    match &*r {
+        Ok(f) => {
+            assert!(matches!(&f.field_type, FieldType::Keyword(k) if k.len() == 1 && k.as_bytes()[0] == buf[0]));
+            assert!(f.parts.len() == 0);
+        }
+        Err(_) => assert!(false, "Python accepts this field name"),
+    }
+}
+
+// @ob id=C20.k.field_name_d props=C20 kind=bounded tier=quick timeout=600
+// @bound every ASCII field name of the layout DIGIT (DIGIT any ASCII digit, OTHER any ASCII character other than . [ ] and digits); the 5 one-character layouts together are all 128 one-character ASCII names
+// @clause splitting a field name yields Python's head (an empty head before accessors is automatic numbering, ASCII digits are an index, anything else a keyword), Python's chain of attribute / index accessors and Python's rejections - for this layout: head index[0..1]; accessors none
+// @fns FieldName::parse FieldNamePart::parse_part parse_index
+#[kani::proof]
+#[kani::unwind(3)]
+#[kani::stub(core::str::slice_error_fail, slice_error_fail_plain)]
+fn c20_field_name_d() {
+    let buf: [u8; 1] = [field_name_byte(3)];
+    let text = unsafe { std::str::from_utf8_unchecked(&buf) };
+    let r = ManuallyDrop::new(FieldName::parse(text));
+    match &*r {
+        Ok(f) => {
+            assert!(matches!(&f.field_type, FieldType::Index(v) if *v == (0usize * 10 + (buf[0] - b'0') as usize)));
+            assert!(f.parts.len() == 0);
+        }
+        Err(_) => assert!(false, "Python accepts this field name"),
+    }
+}
+
+// @ob id=C20.k.field_name_x props=C20 kind=bounded tier=quick timeout=600
+// @bound every ASCII field name of the layout OTHER (DIGIT any ASCII digit, OTHER any ASCII character other than . [ ] and digits); the 5 one-character layouts together are all 128 one-character ASCII names
+// @clause splitting a field name yields Python's head (an empty head before accessors is automatic numbering, ASCII digits are an index, anything else a keyword), Python's chain of attribute / index accessors and Python's rejections - for this layout: head kw[0..1]; accessors none
+// @fns FieldName::parse FieldNamePart::parse_part parse_index
+#[kani::proof]
+#[kani::unwind(3)]
+#[kani::stub(core::str::slice_error_fail, slice_error_fail_plain)]
+fn c20_field_name_x() {
+    let buf: [u8; 1] = [field_name_byte(4)];
+    let text = unsafe { std::str::from_utf8_unchecked(&buf) };
+    let r = ManuallyDrop::new(FieldName::parse(text));
+    match &*r {
+        Ok(f) => {
+            assert!(matches!(&f.field_type, FieldType::Keyword(k) if k.len() == 1 && k.as_bytes()[0] == buf[0]));
+            assert!(f.parts.len() == 0);
+        }
+        Err(_) => assert!(false, "Python accepts this field name"),
+    }
+}
+
+// @ob id=C20.k.field_name_dot_dot props=C20 kind=bounded tier=quick timeout=600
+// @bound every ASCII field name of the layout '.' '.' (DIGIT any ASCII digit, OTHER any ASCII character other than . [ ] and digits); together with the other layouts starting with '.' or '[' these are all ASCII names of 2 characters with an empty head
+// @clause splitting a field name yields Python's head (an empty head before accessors is automatic numbering, ASCII digits are an index, anything else a keyword), Python's chain of attribute / index accessors and Python's rejections - for this layout: rejected: EmptyAttribute
+// @fns FieldName::parse FieldNamePart::parse_part parse_index
+#[kani::proof]
+#[kani::unwind(4)]
+#[kani::stub(core::str::slice_error_fail, slice_error_fail_plain)]
+fn c20_field_name_dot_dot() {
+    let buf: [u8; 2] = [field_name_byte(0), field_name_byte(0)];
+    let text = unsafe { std::str::from_utf8_unchecked(&buf) };
+    let r = ManuallyDrop::new(FieldName::parse(text));
+    assert!(matches!(&*r, Err(FormatParseError::EmptyAttribute)));
+}
+
+// @ob id=C20.k.field_name_dot_lb props=C20 kind=bounded tier=quick timeout=600
+// @bound every ASCII field name of the layout '.' '[' (DIGIT any ASCII digit, OTHER any ASCII character other than . [ ] and digits); together with the other layouts starting with '.' or '[' these are all ASCII names of 2 characters with an empty head
+// @clause splitting a field name yields Python's head (an empty head before accessors is automatic numbering, ASCII digits are an index, anything else a keyword), Python's chain of attribute / index accessors and Python's rejections - for this layout: rejected: EmptyAttribute
+// @fns FieldName::parse FieldNamePart::parse_part parse_index
+#[kani::proof]
+#[kani::unwind(4)]
+#[kani::stub(core::str::slice_error_fail, slice_error_fail_plain)]
+fn c20_field_name_dot_lb() {
+    let buf: [u8; 2] = [field_name_byte(0), field_name_byte(1)];
+    let text = unsafe { std::str::from_utf8_unchecked(&buf) };
+    let r = ManuallyDrop::new(FieldName::parse(text));
+    assert!(matches!(&*r, Err(FormatParseError::EmptyAttribute)));
+}
+
+// @ob id=C20.k.field_name_dot_rb props=C20 kind=bounded tier=quick timeout=600
+// @bound every ASCII field name of the layout '.' ']' (DIGIT any ASCII digit, OTHER any ASCII character other than . [ ] and digits); together with the other layouts starting with '.' or '[' these are all ASCII names of 2 characters with an empty head
+// @clause splitting a field name yields Python's head (an empty head before accessors is automatic numbering, ASCII digits are an index, anything else a keyword), Python's chain of attribute / index accessors and Python's rejections - for this layout: head auto; accessors attr[1..2]
+// @fns FieldName::parse FieldNamePart::parse_part parse_index
+#[kani::proof]
+#[kani::unwind(4)]
+#[kani::stub(core::str::slice_error_fail, slice_error_fail_plain)]
+fn c20_field_name_dot_rb() {
+    let buf: [u8; 2] = [field_name_byte(0), field_name_byte(2)];
+    let text = unsafe { std::str::from_utf8_unchecked(&buf) };
+    let r = ManuallyDrop::new(FieldName::parse(text));
+    match &*r {
+        Ok(f) => {
+            assert!(matches!(&f.field_type, FieldType::Auto));
+            assert!(f.parts.len() == 1);
+            assert!(matches!(&f.parts[0], FieldNamePart::Attribute(a) if a.len() == 1 && a.as_bytes()[0] == buf[1]));
+        }
+        Err(_) => assert!(false, "Python accepts this field name"),
+    }
+}
+
+// @ob id=C20.k.field_name_dot_d props=C20 kind=bounded tier=quick timeout=600
+// @bound every ASCII field name of the layout '.' DIGIT (DIGIT any ASCII digit, OTHER any ASCII character other than . [ ] and digits); together with the other layouts starting with '.' or '[' these are all ASCII names of 2 characters with an empty head
+// @clause splitting a field name yields Python's head (an empty head before accessors is automatic numbering, ASCII digits are an index, anything else a keyword), Python's chain of attribute / index accessors and Python's rejections - for this layout: head auto; accessors attr[1..2]
+// @fns FieldName::parse FieldNamePart::parse_part parse_index
+#[kani::proof]
+#[kani::unwind(4)]
+#[kani::stub(core::str::slice_error_fail, slice_error_fail_plain)]
+fn c20_field_name_dot_d() {
+    let buf: [u8; 2] = [field_name_byte(0), field_name_byte(3)];
+    let text = unsafe { std::str::from_utf8_unchecked(&buf) };
+    let r = ManuallyDrop::new(FieldName::parse(text));
+    match &*r {
+        Ok(f) => {
+            assert!(matches!(&f.field_type, FieldType::Auto));
+            assert!(f.parts.len() == 1);
+            assert!(matches!(&f.parts[0], FieldNamePart::Attribute(a) if a.len() == 1 && a.as_bytes()[0] == buf[1]));
+        }
+        Err(_) => assert!(false, "Python accepts this field name"),
+    }
+}
+
+// @ob id=C20.k.field_name_dot_x props=C20 kind=bounded tier=quick timeout=600
+// @bound every ASCII field name of the layout '.' OTHER (DIGIT any ASCII digit, OTHER any ASCII character other than . [ ] and digits); together with the other layouts starting with '.' or '[' these are all ASCII names of 2 characters with an empty head
+// @clause splitting a field name yields Python's head (an empty head before accessors is automatic numbering, ASCII digits are an index, anything else a keyword), Python's chain of attribute / index accessors and Python's rejections - for this layout: head auto; accessors attr[1..2]
+// @fns FieldName::parse FieldNamePart::parse_part parse_index
+#[kani::proof]
+#[kani::unwind(4)]
+#[kani::stub(core::str::slice_error_fail, slice_error_fail_plain)]
+fn c20_field_name_dot_x() {
+    let buf: [u8; 2] = [field_name_byte(0), field_name_byte(4)];
+    let text = unsafe { std::str::from_utf8_unchecked(&buf) };
+    let r = ManuallyDrop::new(FieldName::parse(text));
+    match &*r {
+        Ok(f) => {
+            assert!(matches!(&f.field_type, FieldType::Auto));
+            assert!(f.parts.len() == 1);
+            assert!(matches!(&f.parts[0], FieldNamePart::Attribute(a) if a.len() == 1 && a.as_bytes()[0] == buf[1]));
+        }
+        Err(_) => assert!(false, "Python accepts this field name"),
+    }
+}
+
+// @ob id=C20.k.field_name_lb_dot props=C20 kind=bounded tier=quick timeout=600
+// @bound every ASCII field name of the layout '[' '.' (DIGIT any ASCII digit, OTHER any ASCII character other than . [ ] and digits); together with the other layouts starting with '.' or '[' these are all ASCII names of 2 characters with an empty head
+// @clause splitting a field name yields Python's head (an empty head before accessors is automatic numbering, ASCII digits are an index, anything else a keyword), Python's chain of attribute / index accessors and Python's rejections - for this layout: rejected: MissingRightBracket
+// @fns FieldName::parse FieldNamePart::parse_part parse_index
+#[kani::proof]
+#[kani::unwind(4)]
+#[kani::stub(core::str::slice_error_fail, slice_error_fail_plain)]
+fn c20_field_name_lb_dot() {
+    let buf: [u8; 2] = [field_name_byte(1), field_name_byte(0)];
+    let text = unsafe { std::str::from_utf8_unchecked(&buf) };
+    let r = ManuallyDrop::new(FieldName::parse(text));
+    assert!(matches!(&*r, Err(FormatParseError::MissingRightBracket)));
+}
+
+// @ob id=C20.k.field_name_lb_lb props=C20 kind=bounded tier=quick timeout=600
+// @bound every ASCII field name of the layout '[' '[' (DIGIT any ASCII digit, OTHER any ASCII character other than . [ ] and digits); together with the other layouts starting with '.' or '[' these are all ASCII names of 2 characters with an empty head
+// @clause splitting a field name yields Python's head (an empty head before accessors is automatic numbering, ASCII digits are an index, anything else a keyword), Python's chain of attribute / index accessors and Python's rejections - for this layout: rejected: MissingRightBracket
+// @fns FieldName::parse FieldNamePart::parse_part parse_index
+#[kani::proof]
+#[kani::unwind(4)]
+#[kani::stub(core::str::slice_error_fail, slice_error_fail_plain)]
+fn c20_field_name_lb_lb() {
+    let buf: [u8; 2] = [field_name_byte(1), field_name_byte(1)];
+    let text = unsafe { std::str::from_utf8_unchecked(&buf) };
+    let r = ManuallyDrop::new(FieldName::parse(text));
+    assert!(matches!(&*r, Err(FormatParseError::MissingRightBracket)));
+}
+
+// @ob id=C20.k.field_name_lb_rb props=C20 kind=bounded tier=quick timeout=600
+// @bound every ASCII field name of the layout '[' ']' (DIGIT any ASCII digit, OTHER any ASCII character other than . [ ] and digits); together with the other layouts starting with '.' or '[' these are all ASCII names of 2 characters with an empty head
+// @clause splitting a field name yields Python's head (an empty head before accessors is automatic numbering, ASCII digits are an index, anything else a keyword), Python's chain of attribute / index accessors and Python's rejections - for this layout: rejected: EmptyAttribute
+// @fns FieldName::parse FieldNamePart::parse_part parse_index
+#[kani::proof]
+#[kani::unwind(4)]
+#[kani::stub(core::str::slice_error_fail, slice_error_fail_plain)]
+fn c20_field_name_lb_rb() {
+    let buf: [u8; 2] = [field_name_byte(1), field_name_byte(2)];
+    let text = unsafe { std::str::from_utf8_unchecked(&buf) };
+    let r = ManuallyDrop::new(FieldName::parse(text));
+    assert!(matches!(&*r, Err(FormatParseError::EmptyAttribute)));
+}
+
+// @ob id=C20.k.field_name_lb_d props=C20 kind=bounded tier=quick timeout=600
+// @bound every ASCII field name of the layout '[' DIGIT (DIGIT any ASCII digit, OTHER any ASCII character other than . [ ] and digits); together with the other layouts starting with '.' or '[' these are all ASCII names of 2 characters with an empty head
+// @clause splitting a field name yields Python's head (an empty head before accessors is automatic numbering, ASCII digits are an index, anything else a keyword), Python's chain of attribute / index accessors and Python's rejections - for this layout: rejected: MissingRightBracket
+// @fns FieldName::parse FieldNamePart::parse_part parse_index
+#[kani::proof]
+#[kani::unwind(4)]
+#[kani::stub(core::str::slice_error_fail, slice_error_fail_plain)]
+fn c20_field_name_lb_d() {
+    let buf: [u8; 2] = [field_name_byte(1), field_name_byte(3)];
+    let text = unsafe { std::str::from_utf8_unchecked(&buf) };
+    let r = ManuallyDrop::new(FieldName::parse(text));
+    assert!(matches!(&*r, Err(FormatParseError::MissingRightBracket)));
+}
+
+// @ob id=C20.k.field_name_lb_x props=C20 kind=bounded tier=quick timeout=600
+// @bound every ASCII field name of the layout '[' OTHER (DIGIT any ASCII digit, OTHER any ASCII character other than . [ ] and digits); together with the other layouts starting with '.' or '[' these are all ASCII names of 2 characters with an empty head
+// @clause splitting a field name yields Python's head (an empty head before accessors is automatic numbering, ASCII digits are an index, anything else a keyword), Python's chain of attribute / index accessors and Python's rejections - for this layout: rejected: MissingRightBracket
+// @fns FieldName::parse FieldNamePart::parse_part parse_index
+#[kani::proof]
+#[kani::unwind(4)]
+#[kani::stub(core::str::slice_error_fail, slice_error_fail_plain)]
+fn c20_field_name_lb_x() {
+    let buf: [u8; 2] = [field_name_byte(1), field_name_byte(4)];
+    let text = unsafe { std::str::from_utf8_unchecked(&buf) };
+    let r = ManuallyDrop::new(FieldName::parse(text));
+    assert!(matches!(&*r, Err(FormatParseError::MissingRightBracket)));
+}
+
+// ---- end of generated layout family ----
